@@ -157,7 +157,7 @@ func init() {
 				// lineage is then loaded from disk
 				resumed = true
 				o1 := opts
-				o1.Snapshots = true
+				o1.SnapOne = 1 + uint64(c.Tape.Choose(simrt.StKill, 1<<20, 0))
 				inc1 := RunInc(w, c.Tape, nil, 0, o1)
 				c.Absorb(inc1)
 				if v := flowOracle(inc1, ex); v.Status != "ok" {
@@ -167,7 +167,7 @@ func init() {
 					c.Probe("trivial-case")
 					return OK()
 				}
-				sn := inc1.Snaps[c.Tape.Choose(simrt.StKill, len(inc1.Snaps), 0)]
+				sn := inc1.Snaps[0]
 				c.Fault("kill@state")
 				opts2 := opts
 				opts2.Strategy = strategyOf(c.Tape)
